@@ -160,14 +160,6 @@ HARNESSES = [
       fns=['yaml::chunker::Chunker::next', 'yaml::chunker::Chunker::new', 'yaml::chunker::ChunkReader::read', 'yaml::chunker::ChunkReader::take_to_offset', 'yaml::chunker::ChunkReader::trim_to_offset',
            'yaml::chunker::Document::is_collection'], timeout=900,
       assumes=['libyaml replaced by a scripted event source with concrete monotone marks (Parser::new / Parser::next_event stubbed); Drop of the parser skipped']),
-    H('U-CHK', 'chunker', 'chunker_next_leading_gap_and_empty_document', 'bounded', ['C03', 'C09'], bounds='script: leading gap, empty document', requires=['parser'],
-      fns=['yaml::chunker::Chunker::next', 'yaml::chunker::Chunker::new', 'yaml::chunker::ChunkReader::read', 'yaml::chunker::ChunkReader::take_to_offset', 'yaml::chunker::ChunkReader::trim_to_offset',
-           'yaml::chunker::Document::is_collection'], timeout=900,
-      assumes=['libyaml replaced by a scripted event source with concrete monotone marks (Parser::new / Parser::next_event stubbed); Drop of the parser skipped']),
-    H('U-CHK', 'chunker', 'chunker_next_parser_error_after_first_document', 'bounded', ['C09', 'C12', 'C10'], bounds='script: parser fails after the first document end', requires=['parser'],
-      fns=['yaml::chunker::Chunker::next', 'yaml::chunker::Chunker::new', 'yaml::chunker::ChunkReader::read', 'yaml::chunker::ChunkReader::take_to_offset', 'yaml::chunker::ChunkReader::trim_to_offset',
-           'yaml::chunker::Document::is_collection'], timeout=900,
-      assumes=['libyaml replaced by a scripted event source with concrete monotone marks (Parser::new / Parser::next_event stubbed); Drop of the parser skipped']),
     H('U-CHK', 'chunker', 'chunker_next_empty_stream', 'bounded', ['C03', 'C04'], bounds='script: empty stream', requires=['parser'],
       fns=['yaml::chunker::Chunker::next', 'yaml::chunker::Chunker::new', 'yaml::chunker::ChunkReader::read', 'yaml::chunker::ChunkReader::take_to_offset', 'yaml::chunker::ChunkReader::trim_to_offset',
            'yaml::chunker::Document::is_collection'], timeout=900,
